@@ -202,7 +202,107 @@ class FinishedOrNotPaused(Contract):
     canaries = [("if self._pauseCount == 0 and self._completionState is None:", "if self._pauseCount == 0:", "finished_tasks_refuse_with_their_state_and_pause_counts_nest")]
 
 
-CONTRACTS = [OneWorkUnit, StopThenLateFailure, FinishedOrNotPaused]
+
+class CooperatorStop(Contract):
+    """Cooperator.stop(): every task it holds is completed -- each completion Deferred errbacked exactly once with
+    SchedulerStopped -- whatever their number; nothing stays registered or scheduled.  (The real _completeWith /
+    _removeTask run inline: they take the task out of the very list stop() walks -- the defect repaired by /repo f338513.)"""
+    prop = "C11"
+    module = M
+    function = "Cooperator.stop"
+    also = ["CooperativeTask._completeWith", "Cooperator._removeTask"]
+    differential = False
+    calls = CALLS
+    inputs = dict(n=OneOf(0, 1, 2, 3, 4), scheduled=ForkBool(), started=ForkBool())
+
+    def setup(self, i):
+        coop = self.make(task.Cooperator, _tasks=[], _stopped=False, _started=i.started, _mustScheduleOnStart=False,
+                         _delayedCall=self.opaque("delayedcall") if i.scheduled else None,
+                         _terminationPredicateFactory=self.opaque("predfactory"), _scheduler=self.opaque("scheduler"),
+                         _metarator=None)
+        tasks, done = [], []
+        for k in range(i.n):
+            ds = [self.opaque("done%d_a" % k), self.opaque("done%d_b" % k)]
+            t = self.make(task.CooperativeTask, "task%d" % k, _iterator=self.opaque("iterator%d" % k), _cooperator=coop,
+                          _deferreds=list(ds), _pauseCount=0, _completionState=None, _completionResult=None)
+            tasks.append(t)
+            done.append(ds)
+        (coop._tasks if self.mode != "symbolic" else coop._fields["_tasks"]).extend(tasks)
+        return dict(self=coop, args=[], objs=dict(coop=coop), ghost=dict(tasks=tasks, done=done))
+
+    def bounded_inputs(self, tier):
+        return iter(())  # real Cooperators are stopped in the bounded class of the same name
+
+    raises = ()
+
+    def _all(S):
+        coop = S.new.coop
+        out = band(len(list(coop._tasks)) == 0, coop._stopped is True, coop._delayedCall is None,
+                   len(fired(S, "delayedcall.cancel")) == (1 if S.i.scheduled else 0))
+        for k, ds in enumerate(S.ghost["done"]):
+            for suffix in ("a", "b"):
+                name = "done%d_%s" % (k, suffix)
+                ev = fired(S, name + ".callback")
+                out = band(out, len(ev) == 1, len(fired(S, name + ".errback")) == 0)
+                if len(ev) == 1:
+                    r = ev[0].args[0]
+                    out = band(out, isinstance(r, Failure) and isinstance(r.value, task.SchedulerStopped))
+        return out
+
+    ensures = dict(every_task_completed_exactly_once_with_scheduler_stopped=_all)
+    canaries = [("for taskObj in list(self._tasks):", "for taskObj in self._tasks:", "every_task_completed_exactly_once_with_scheduler_stopped")]
+
+
+class AddTaskWhenStopped(Contract):
+    """a task added to a stopped Cooperator is completed at once with SchedulerStopped and not kept; to a running one it
+    is registered once and a tick is scheduled"""
+    prop = "C11"
+    module = M
+    function = "Cooperator._addTask"
+    also = ["CooperativeTask._completeWith", "Cooperator._removeTask", "Cooperator._reschedule"]
+    differential = False
+    calls = dict(CALLS, **{"scheduler.__call__": lambda I, sch, fn: (ctx().emit("schedule", sch, (fn,)), ctx().ghost["$contract"].opaque("newcall"))[1]})
+    inputs = dict(stopped=ForkBool(), started=ForkBool(), others=OneOf(0, 1), scheduled=ForkBool())
+
+    def requires(self, i):
+        return not (i.scheduled and i.others == 0)  # a tick is only ever pending while there are tasks
+
+    def setup(self, i):
+        coop = self.make(task.Cooperator, _tasks=[], _stopped=i.stopped, _started=i.started, _mustScheduleOnStart=False,
+                         _delayedCall=self.opaque("delayedcall") if i.scheduled else None,
+                         _terminationPredicateFactory=self.opaque("predfactory"), _scheduler=self.opaque("scheduler"),
+                         _metarator=None)
+        other = [self.make(task.CooperativeTask, "other", _iterator=self.opaque("it0"), _cooperator=coop, _deferreds=[],
+                           _pauseCount=0, _completionState=None, _completionResult=None)][: i.others]
+        t = self.make(task.CooperativeTask, "task", _iterator=self.opaque("it"), _cooperator=coop,
+                      _deferreds=[self.opaque("done_a")], _pauseCount=0, _completionState=None, _completionResult=None)
+        (coop._tasks if self.mode != "symbolic" else coop._fields["_tasks"]).extend(other)
+        return dict(self=coop, args=[t], objs=dict(coop=coop, t=t), ghost=dict(other=other))
+
+    def bounded_inputs(self, tier):
+        return iter(())
+
+    raises = ()
+
+    def _added(S):
+        coop, t = S.new.coop, S.new.t
+        tasks = list(coop._tasks)
+        ev = fired(S, "done_a.callback")
+        if S.i.stopped:
+            return band(len(tasks) == S.i.others, all(x is not S.new.t for x in tasks), len(ev) == 1,
+                        True if len(ev) != 1 else isinstance(ev[0].args[0], Failure) and isinstance(ev[0].args[0].value, task.SchedulerStopped),
+                        isinstance(t._completionState, task.SchedulerStopped), len(fired(S, "schedule")) == 0)
+        want_tick = S.i.started and not S.i.scheduled
+        return band(len(tasks) == S.i.others + 1, len(ev) == 0, t._completionState is None,
+                    len(fired(S, "schedule")) == (1 if want_tick else 0),
+                    (coop._delayedCall is not None) if (want_tick or S.i.scheduled) else True)
+
+    ensures = dict(completed_at_once_when_stopped_registered_and_scheduled_otherwise=_added)
+    canaries = [("        if self._stopped:\n            self._tasks.append(task)", "        if False:\n            self._tasks.append(task)",
+                 "completed_at_once_when_stopped_registered_and_scheduled_otherwise")]
+
+
+CONTRACTS = [OneWorkUnit, StopThenLateFailure, FinishedOrNotPaused, CooperatorStop, AddTaskWhenStopped]
 BOUNDED = bounded("C11")
 _SCOPE = ('real Cooperator driven by a deterministic scheduler and a work-unit-count termination predicate: 1 task x 14 scripts (values, Deferreds fired later with success or failure, pre-fired Deferreds, raising) x every history of length <= 5 over {tick, pause, resume, stop, fire-ok, fire-err, whenDone}; 2 tasks (cooperate / coiterate) x histories of length <= 3; removal of tasks during a tick for 2-8 tasks over 14 shapes incl. pausing / stopping a neighbour from inside next(); seeded random histories with 1-8 tasks and 5-60 operations; oracle: a model from the property statement (never advanced while paused / stopped / finished / waiting, whenDone / coiterate Deferreds fire exactly once with the iterator / failure / stop reason, TaskFinished subtypes, bounded wait of 2N+2 work units for a runnable task)')
 NOTES = dict(explanation="CooperativeTask's per-task protocol proved (work unit outcomes, stop with a late failure, finished / not-paused refusals); "
@@ -217,7 +317,11 @@ MANIFEST = dict(
          "whenDone Deferred fired exactly once.  stop() while waiting on a Deferred completes once with TaskStopped and a later "
          "failure or success of that Deferred neither completes again nor re-queues the task.  pause / stop on a finished "
          "task raise its completion state and change nothing, resume without pause raises NotPaused, pause counts nest and "
-         "only the outermost pause / resume touches the cooperator.  Which task runs next, fairness and coiterate are "
+         "only the outermost pause / resume touches the cooperator.  Cooperator.stop() (with the real _completeWith / "
+         "_removeTask inline, which remove from the very list stop() walks) is proved for 0..4 tasks to complete every "
+         "task exactly once with SchedulerStopped and to leave nothing registered or scheduled; _addTask on a stopped "
+         "Cooperator completes the task at once and does not keep it, on a running one registers it and schedules a "
+         "tick exactly when none is pending.  Which task runs next, fairness and coiterate are "
          "exercised in the bounded tier only: " + _SCOPE + ".",
     note="Trusted: pyvc, SMT solvers, next() / cooperator / completion Deferreds as call-outs, Failure() construction modelled. "
          "Scheduling: bounded, never counted as proved.",
